@@ -12,11 +12,11 @@ use num_bigint::BigUint;
 use num_traits::Zero;
 use serde_json::{json, Value};
 
-pub fn isolated_c05(_t: Tier, i: usize) -> bool {
-    two_caller_run_c05(i) && i % 2 == 0
+pub fn isolated_c05(t: Tier, i: usize) -> bool {
+    two_caller_run_c05(t, i) && i % 2 == 0
 }
-fn two_caller_run_c05(i: usize) -> bool {
-    (3 + INTEROP..3 + INTEROP + 24).contains(&i)
+fn two_caller_run_c05(t: Tier, i: usize) -> bool {
+    (3 + INTEROP..3 + INTEROP + t.pick(24, 480)).contains(&i)
 }
 
 pub fn runs_c05(t: Tier) -> usize {
@@ -134,7 +134,7 @@ pub fn run_c05(p: &mut Prng, t: Tier, i: usize, sink: &mut Sink) {
         sink.done(w);
         return;
     }
-    if two_caller_run_c05(i) {
+    if two_caller_run_c05(t, i) {
         // Two parties with different keys on two simulated caller threads, in a worker process of
         // their own. Shapes: both encryptions cold; one recipient already used (hit beside miss);
         // the two decryptions side by side after one of them was done before (compressed C1 in
